@@ -7,6 +7,7 @@ INVARIANT SuccessfulBodyAtMostOnce
 INVARIANT ResultIsFinal
 INVARIANT WaitOnlyWhenAllFinal
 INVARIANT CounterNonNegative
+INVARIANT StopOnlyOnRequest
 INVARIANT ExitReportsFailureIffFailed
 INVARIANT FailedDependentsCancelled
 INVARIANT IndependentJobsRun
@@ -18,4 +19,5 @@ PROPERTY NoBodyAfterDone
 PROPERTY NoLaunchWhenDoneAtSubmit
 PROPERTY FinalAbsorbing
 PROPERTY TruthfulFinal
+PROPERTY EarlyReturnOnlyAfterStop
 CHECK_DEADLOCK TRUE
